@@ -26,7 +26,7 @@ one() {
   local props; props=$(python3 -c "import json;print(' '.join(next(m['expected'] for m in json.load(open('$VERIF/mutants/index.json')) if m['name']=='$name')))")
   for p in $props; do
     local log="$dir/check-$p.log"
-    env VERIF_REPO="$dir" VERIF_OUT="$dir/.verif-out" VERIF_WORKERS=${VERIF_WORKERS:-4} ${RUNS:+VERIF_RUNS=$RUNS} timeout -k 5 900 "$VERIF/check" "$p" quick >"$log" 2>&1; local rc=$?
+    env VERIF_REPO="$dir" VERIF_OUT="$dir/.verif-out" VERIF_WORKERS=${VERIF_WORKERS:-4} ${RUNS:+VERIF_RUNS=$RUNS} timeout -k 5 2400 "$VERIF/check" "$p" quick >"$log" 2>&1; local rc=$?
     [ $rc -ge 124 ] && pkill -9 -f "$dir/.verif-target" 2>/dev/null
     local oracle; oracle=$(grep -o "oracle=[A-Za-z0-9_.-]*" "$log" | sort -u | tr '\n' ' ')
     local verdict=MISSED; [ $rc -eq 1 ] && verdict=caught; [ $rc -ge 2 ] && verdict=harness-error
